@@ -299,3 +299,101 @@ func isNegated(v ssa.Value) bool {
 	_, n := stripNot(v)
 	return n
 }
+
+// rulesC18dflt: Bind's documented defaulting of the deactivation target.
+func (c *Ctx) rulesC18dflt() {
+	c.rule("C18.dflt", "pipes.Bind hands Remove a deactivation target that falls back to the ACTIVATION target: the value depends on the activeState parameter (Remove on its own defaults an empty target to the source state's name, which differs whenever a custom activeState is used - the piped state would be added on activation and never removed)")
+	const pp = "pkg/states/pipes"
+	bind := c.fn(pp + ":Bind")
+	if bind == nil {
+		return
+	}
+	var act, inact *ssa.Parameter
+	for _, p := range bind.Params {
+		switch p.Name() {
+		case "activeState":
+			act = p
+		case "inactiveState":
+			inact = p
+		}
+	}
+	if act == nil || inact == nil {
+		c.undecided("C18.dflt: Bind has no activeState / inactiveState parameters")
+		return
+	}
+	sites := c.sitesIn(bind, pp+":Remove")
+	if len(sites) < 1 {
+		c.undecided("C18.dflt: Bind does not call Remove")
+		return
+	}
+	for i, s := range sites {
+		args := s.Common().Args
+		tgt := args[len(args)-1]
+		dep := false
+		valueTree(tgt, 10, func(v ssa.Value) {
+			if v == ssa.Value(act) {
+				dep = true
+			}
+		})
+		c.check(dep, "C18.dflt", fmt.Sprintf("Bind: Remove target%s falls back to activeState", nth(i)), s.Pos(),
+			"Remove receives "+render(tgt)+", which does not depend on activeState: an empty inactiveState now means the source state's name, not the custom activation target")
+	}
+}
+
+// rulesC18net: a mutation on a network machine is decided by the source.
+func (c *Ctx) rulesC18net() {
+	c.rule("C18.net", "a NetworkMachine mutation method (Add/Remove/Set/Ev*/…NS; result type am.Result, Can* checks excepted) reports Executed as a constant only after the request went to the server (dominated by conn.Call / conn.Notify): the local mirror is eventually consistent, so short-cutting on mirrored activity (\"already inactive, nothing to remove\") drops a Remove that must follow an Add still in flight, leaving a piped target active after its source went inactive")
+	nm := c.namedType(prpc, "NetworkMachine")
+	_, exec, ok := c.constVal(pm, "Executed")
+	if nm == nil || !ok {
+		return
+	}
+	n := 0
+	for _, f := range c.Funcs {
+		recv := f.Signature.Recv()
+		if recv == nil || namedOf(recv.Type()) == nil || namedOf(recv.Type()).Obj() != nm.Obj() || f.Parent() != nil {
+			continue
+		}
+		res := f.Signature.Results()
+		if res.Len() != 1 {
+			continue
+		}
+		rn := namedOf(res.At(0).Type())
+		if rn == nil || rn.Obj().Name() != "Result" {
+			continue
+		}
+		if strings.HasPrefix(f.Name(), "Can") {
+			continue
+		}
+		n++
+		var sent []ssa.Instruction
+		for _, spec := range []string{"method:Call", "method:Notify"} {
+			for _, s := range c.sitesIn(f, spec) {
+				sent = append(sent, s)
+			}
+		}
+		bad := ""
+		var pos = f.Pos()
+		for _, r := range returnsOf(f) {
+			for _, v := range retVals(r) {
+				k, isK := constInt(v)
+				if !isK || k != exec {
+					continue
+				}
+				dom := false
+				for _, s := range sent {
+					if dominatesInstr(s, r) {
+						dom = true
+					}
+				}
+				if !dom {
+					bad, pos = "returns the constant Executed without a preceding server call", r.Pos()
+				}
+			}
+		}
+		c.check(bad == "", "C18.net", "NetworkMachine."+f.Name()+" reports Executed only after asking the source", pos, bad)
+	}
+	if n < 10 {
+		c.undecided(fmt.Sprintf("C18.net: only %d NetworkMachine mutation methods found", n))
+	}
+}
